@@ -90,6 +90,43 @@ def failed_call_noise(res: Result, cls: type, spec: describe.StructSpec, tree: d
         entity_writer(cls)(WriteOnlySink(fail_at=rng.randrange(max(1, n)), fail_exc=OSError("injected")), inst)
     except Exception:  # noqa: BLE001
         pass
+    try:
+        # an instance one of whose integers is out of range: the encoder fails in the middle of a (possibly tagged, nested) field
+        poisoned = _poison(spec, tree, rng)
+        if poisoned is not None:
+            entity_writer(cls)(io.BytesIO(), describe.tree_to_instance(spec, poisoned))
+    except Exception:  # noqa: BLE001
+        pass
+
+
+def _poison(spec: describe.StructSpec, tree: dict, rng) -> dict | None:  # noqa: ANN001
+    import copy
+
+    t = copy.deepcopy(tree)
+    _strip_extras(t)
+    leaves: list[tuple[object, object, bool]] = []
+
+    def visit(sp: describe.StructSpec, node: dict, in_tag: bool) -> None:
+        for fs in sp.fields:
+            v = node.get(fs.name)
+            tagged = in_tag or fs.tag is not None
+            if fs.kind == "prim" and fs.ktype in ("int8", "int16", "int32", "int64", "uint16", "uint32", "uint64"):
+                if fs.array and v:
+                    leaves.append((v, len(v) - 1, tagged))
+                elif not fs.array and v is not None:
+                    leaves.append((node, fs.name, tagged))
+            elif fs.kind == "struct" and v is not None:
+                for item in (v if fs.array else [v]):
+                    if item is not None:
+                        visit(fs.struct, item, tagged)
+
+    visit(spec, t, False)
+    if not leaves:
+        return None
+    tagged_leaves = [x for x in leaves if x[2]]
+    container, key, _ = rng.choice(tagged_leaves if tagged_leaves and rng.random() < 0.7 else leaves)
+    container[key] = 2**70  # type: ignore[index]
+    return t
 
 
 # ---------------------------------------------------------------------------------------
